@@ -166,6 +166,14 @@ def h_corr(ctx, n):
             ctx.vc("-1 <= r <= 1", -1 - 1e-12 <= r <= 1 + 1e-12)
         return
     (a1,), (a2,) = ctx.uf_terms("sqrt")[-2:]
+    # a final clamp into [-1, 1] (rounding guard) does not take part in the identities: they are stated on the value before it
+    r_ret = Num.of(r)
+    for margs in ctx.min_args():
+        cand = [m for m in margs if not (isinstance(m, (int, float)) or (isinstance(m, Num) and m.is_concrete()))]
+        if len(cand) == 1:
+            r = Num.of(cand[0])
+            ctx.vc("the returned value is the quotient clamped into [-1, 1]",
+                   r_ret == ite(r > 1, Num.of(1.0), ite(r < -1, Num.of(-1.0), r)))
     ctx.identity("first variance term is n Sxx - Sx^2", a1, dx)
     ctx.identity("second variance term is n Syy - Sy^2", a2, dy)
     ctx.identity("r * sqrt(.) * sqrt(.) == n Sxy - Sx Sy", r * sqrt_(a1) * sqrt_(a2), num)
@@ -266,8 +274,13 @@ def b_float(rng, tier):
                     if any(abs(p_ - q_) > 1e-6 * max(1.0, abs(q_)) for p_, q_ in zip(gl[:2], got)) or gl[2] != 0.0:
                         ok, det = False, ("general vs linear", gl, got)
             r_ = cf.correlation_coeff()
-            if not -1.0 - 1e-9 <= r_ <= 1.0 + 1e-9:
-                ok, det = False, ("correlation", r_)
+            if not -1.0 <= r_ <= 1.0:
+                ok, det = False, ("correlation outside [-1, 1]", r_)
+            # collinear data through the same abscissae: r = +-1 (1e-6), never outside [-1, 1]
+            sl, ic = rng.choice((-1, 1)) * rng.uniform(0.01, 5.0), rng.uniform(-5, 5)
+            rc = CurveFitting(xs, [sl * x + ic for x in xs]).correlation_coeff()
+            if not -1.0 <= rc <= 1.0 or abs(rc - (1.0 if sl > 0 else -1.0)) > 1e-6:
+                ok, det = False, ("correlation of collinear data", rc, sl)
             r2 = CurveFitting([3.5 * x + 2 for x in xs], ys).correlation_coeff()
             r3 = CurveFitting([-x for x in xs], ys).correlation_coeff()
             if abs(r2 - r_) > 1e-6 or abs(r3 + r_) > 1e-6:
